@@ -24,6 +24,7 @@ import PubgrubProofs.TreeLink
 import PubgrubProofs.CollapseNoPanic
 import PubgrubProofs.RangeAnyOrder2
 import PubgrubProofs.ReportCollapsed
+import PubgrubProofs.Examples
 
 namespace Pubgrub.C09
 open Pubgrub
@@ -115,5 +116,8 @@ theorem C09_range_no_panic_on_resolve_trees (W : World P (Range V) V M) (hW : W.
   range_collapse_no_panic W hW debug fuel root rv s tree h
 
 end NoPanicAnyOrder
+
+/-! Non-vacuity on concrete runs (PubgrubProofs/Examples.lean, evaluated by `decide +kernel`; registered in
+obligations.json so that their axioms are audited too): `Examples.example_B_collapse_no_panic`. -/
 
 end Pubgrub.C09
